@@ -122,11 +122,14 @@ def run(ctx):
         rec = {"id": "frag-%d" % len(recs), "kind": "fragment", "old": enc(old), "f": enc(f), "acl": [[list(s) for s in p] for p in acl],
                "src": [old, f, acl_text]}
         try:
+            keep_old, keep_f = json.dumps(old), json.dumps(f)
             res = jt.apply_json_fragment(old, f, acl_text)
+            res_enc = enc(res)
             res2 = jt.apply_json_fragment(res, f, acl_text)
-            rec.update({"r": enc(res), "r2": enc(res2), "raised": False})
+            # frame condition: the caller's documents are not touched (the caller goes on to make_patch(old, result))
+            rec.update({"r": res_enc, "r2": enc(res2), "raised": False, "inputsKept": json.dumps(old) == keep_old and json.dumps(f) == keep_f and enc(res) == res_enc})
         except Exception as e:
-            rec.update({"r": enc(None), "r2": enc(None), "raised": True, "exc": repr(e)})
+            rec.update({"r": enc(None), "r2": enc(None), "raised": True, "inputsKept": True, "exc": repr(e)})
         recs.append(rec)
         ctx.count()
         if not rec["raised"] and rec["r"] != rec["old"]:
